@@ -234,6 +234,11 @@ class EnumIter(Native):
         return (i, v)
 
 
+class RepList(list):
+    """What a comprehension over an abstract iterable yields: one representative element standing for every repetition (the same
+    convention as the body of a `for` over an abstract iterable, evaluated once between loop brackets)."""
+
+
 class GenList(list):
     """The items of a generator expression, evaluated eagerly (an iterator: next() consumes)."""
 
@@ -1192,7 +1197,22 @@ class Interp(object):
             ok = self._comprehension(e, 0, frame, out, ctor)
         finally:
             frame.locals = saved
-        return out if ok else Top('list')
+        if ok:
+            return out
+        if len(e.generators) == 1 and not e.generators[0].ifs and ctor is not dict:
+            # an abstract iterable: the element expression is evaluated once, between loop brackets, so that what it does
+            # (reads, writes, emissions) is not lost; the result holds that one representative
+            g = e.generators[0]
+            saved = dict(frame.locals)
+            try:
+                self.event('loop_begin', norm(g.iter))
+                self.assign(g.target, Top('loopvar'), frame, e)
+                elt = self.ev(e.elt, frame)
+                self.event('loop_end')
+            finally:
+                frame.locals = saved
+            return RepList([elt])
+        return Top('list')
 
     def _comprehension(self, e, i, frame, out, ctor):
         if i == len(e.generators):
@@ -1615,6 +1635,8 @@ class Interp(object):
     def builtin(self, name, args, kwargs, node, frame):
         a0 = args[0] if args else None
         if name == 'len':
+            if isinstance(a0, RepList):
+                return Top('int')
             if isinstance(a0, (list, tuple, str, bytes, dict)):
                 return len(a0)
             if isinstance(a0, Deque):
@@ -1705,7 +1727,12 @@ class Interp(object):
                     return r
                 if isinstance(a0, Native):
                     return NativeMethod(a0, args[1])
-                v = self.load_attr(a0, args[1], fake, frame)
+                try:
+                    v = self.load_attr(a0, args[1], fake, frame)
+                except Raise as r:
+                    if r.cls == 'AttributeError' and len(args) > 2:
+                        return args[2]      # getattr(x, name, default): the default stands in for a missing attribute
+                    raise
                 if isinstance(v, Top) and len(args) > 2:
                     return args[2] if not (isinstance(a0, Obj) and self.repo.has_cls(a0.cls)) else v
                 if isinstance(v, Top) and isinstance(a0, (Obj, Top, Sym)):
